@@ -34,7 +34,7 @@ ORIGINAL = [
     ("Pipeline_orig_alertlock.cfg", "Deadlock reached", "alert node start needs tm.mu while StopTask holds it"),
     ("Pipeline_orig_alerterr.cfg", "Deadlock reached", "failed alert node left its handler goroutines behind"),
     ("Pipeline_loop.cfg", "Deadlock reached", "KNOWN FINDING loopback-stop-deadlock (not repaired)"),
-    ("Pipeline_udf.cfg", "NoAcceptedLoss", "KNOWN FINDING udf-stop-aborts (not repaired)"),
+    ("Pipeline_udf.cfg", "NoAcceptedLoss", "stopUDF aborted the UDF (and whatever it held) on every graceful stop"),
 ]
 
 
@@ -43,9 +43,9 @@ def run(sc, tier, seed):
     V.build_harness("c07")
     # ---- design level
     if tier == "quick":
-        cfgs = ["Pipeline_quick.cfg", "Pipeline_quick_k2.cfg", "Pipeline_loopclose.cfg", "Pipeline_udflive.cfg"]
+        cfgs = ["Pipeline_quick.cfg", "Pipeline_quick_k2.cfg", "Pipeline_loopclose.cfg"]
     else:
-        cfgs = ["Pipeline_thorough.cfg", "Pipeline_thorough_k2.cfg", "Pipeline_thorough_buf.cfg", "Pipeline_loopclose.cfg", "Pipeline_udflive.cfg"]
+        cfgs = ["Pipeline_thorough.cfg", "Pipeline_thorough_k2.cfg", "Pipeline_thorough_buf.cfg", "Pipeline_loopclose.cfg"]
     per_cfg = {}
     for cfg in cfgs:
         res = V.model_check(sc, "Pipeline", "PipelineMC.tla", cfg, timeout=2400)
